@@ -967,52 +967,162 @@ theorem fmtSeq_np (f : Bytes → Res Unit) :
     apply NP.bind (h2 e (by simp [he])); intro _ _
     exact ih (fun r' hr' => h1 r' (by simp [hr'])) (fun e' he' => h2 e' (by simp [he']))
 
-/-- `Display` / `Debug` of an element: value or `fmt::Error`, never a panic (in particular the
-`unreachable!()` is unreachable), and the recursion is at most `len + 1` deep -/
-theorem fmtOf_np : ∀ (d : Nat) (bs : Bytes), bs.length < d → bs.length < I32LIM → NP (fmtOf d bs) := by
-  intro d
-  induction d with
-  | zero => intro bs h; omega
-  | succ d ih =>
-    intro bs hd hu
-    simp only [fmtOf]
-    apply NP.bind (tagOf_np _); intro t _
-    apply NP.bind (valueOf_np _ hu); intro v hv
-    split
-    · apply NP.bind (containerOf_np _); intro seq hseq
-      have hle := containerOf_le hseq
-      have hlt : seq.length < bs.length := by
-        unfold containerOf at hseq
-        rcases Res.bind_eq_ok.mp hseq with ⟨c, hc, h2⟩
-        split at h2
-        · exact nextEnter_lt (control_ok_ne_nil hc) h2
-        · simp at h2
-      have hu' : seq.length < I32LIM := by omega
-      obtain ⟨k, rfl⟩ := valueOf_of_containerOf hv hseq
-      apply NP.bind _ (fun _ _ => by simp only [TVal.vt]; exact NP.ok _)
-      apply fmtSeq_np _ _ (elements_item_np seq hu')
-      intro e he
-      obtain ⟨oks, tail, e1, e2, _, e4⟩ := elements_spec seq hu'
-      rw [e1, List.mem_append] at he
-      have hmem : e ∈ oks := by
-        rcases he with he | he
-        · rcases List.mem_map.mp he with ⟨a, ha, hh⟩; cases hh; exact ha
-        · rcases e2 with rfl | ⟨e', rfl⟩ <;> simp at he
-      have := e4 e hmem
-      exact ih e (by omega) (by omega)
-    · exact NP.ok _
-
-theorem seqFmtOf_np (seq : Bytes) (hu : seq.length < I32LIM) : NP (seqFmtOf seq) := by
-  unfold seqFmtOf
-  apply fmtSeq_np _ _ (elements_item_np seq hu)
-  intro e he
+/-- an `Ok` item of the element iteration is not longer than the sequence -/
+theorem elements_ok_le (seq e : Bytes) (hu : seq.length < I32LIM) (he : Res.ok e ∈ elements seq) :
+    e.length ≤ seq.length := by
   obtain ⟨oks, tail, e1, e2, _, e4⟩ := elements_spec seq hu
   rw [e1, List.mem_append] at he
   have hmem : e ∈ oks := by
     rcases he with he | he
     · rcases List.mem_map.mp he with ⟨a, ha, hh⟩; cases hh; exact ha
     · rcases e2 with rfl | ⟨e', rfl⟩ <;> simp at he
-  have := e4 e hmem
-  exact fmtOf_np _ e (by omega) (by omega)
+  exact e4 e hmem
+
+theorem fmtFirst_np : ∀ l : List (Res Bytes), (∀ r ∈ l, NP r) → NP (fmtFirst l)
+  | [], _ => NP.ok _
+  | r :: _, h => by
+    simp only [fmtFirst]
+    exact NP.bind (h r (by simp)) fun _ _ => NP.ok _
+
+/-- one call of `fmt`: no panic (in particular the `unreachable!()` is unreachable) if handling the children
+does not panic -/
+theorem fmtBody_np (kids : List (Res Bytes) → Res Unit) (bs : Bytes) (hu : bs.length < I32LIM)
+    (hk : ∀ seq, containerOf bs = .ok seq → seq.length < bs.length → NP (kids (elements seq))) :
+    NP (fmtBody kids bs) := by
+  unfold fmtBody
+  apply NP.bind (tagOf_np _); intro t _
+  apply NP.bind (valueOf_np _ hu); intro v hv
+  split
+  · apply NP.bind (containerOf_np _); intro seq hseq
+    have hlt : seq.length < bs.length := by
+      unfold containerOf at hseq
+      rcases Res.bind_eq_ok.mp hseq with ⟨c, hc, h2⟩
+      split at h2
+      · exact nextEnter_lt (control_ok_ne_nil hc) h2
+      · simp at h2
+    obtain ⟨k, rfl⟩ := valueOf_of_containerOf hv hseq
+    exact NP.bind (hk seq hseq hlt) (fun _ _ => by simp only [TVal.vt]; exact NP.ok _)
+  · exact NP.ok _
+
+/-- `TLVElement::fmt` at any remaining depth budget: value or `fmt::Error`, never a panic; no fuel — the
+recursion is structural on the budget, hence at most `rem + 1` deep for every input -/
+theorem fmtAt_np : ∀ (rem : Nat) (bs : Bytes), bs.length < I32LIM → NP (fmtAt rem bs) := by
+  intro rem
+  induction rem with
+  | zero =>
+    intro bs hu
+    simp only [fmtAt]
+    exact fmtBody_np _ bs hu fun seq _ hlt => fmtFirst_np _ (elements_item_np seq (by omega))
+  | succ rem ih =>
+    intro bs hu
+    simp only [fmtAt]
+    refine fmtBody_np _ bs hu fun seq _ hlt => ?_
+    have hu' : seq.length < I32LIM := by omega
+    apply fmtSeq_np _ _ (elements_item_np seq hu')
+    intro e he
+    have := elements_ok_le seq e hu' he
+    exact ih e (by omega)
+
+theorem fmtOf_np (bs : Bytes) (hu : bs.length < I32LIM) : NP (fmtOf bs) := fmtAt_np _ bs hu
+
+theorem seqFmtOf_np (seq : Bytes) (hu : seq.length < I32LIM) : NP (seqFmtOf seq) := by
+  unfold seqFmtOf
+  apply fmtSeq_np _ _ (elements_item_np seq hu)
+  intro e he
+  have := elements_ok_le seq e hu he
+  exact fmtAt_np _ e (by omega)
+
+/-- the uncapped formatter (before the fix) never panics either **given enough fuel** — `len + 1`, i.e. a
+recursion (and a stack) that grows with the input -/
+theorem Old.fmtOf_np : ∀ (d : Nat) (bs : Bytes), bs.length < d → bs.length < I32LIM → NP (Old.fmtOf d bs) := by
+  intro d
+  induction d with
+  | zero => intro bs h; omega
+  | succ d ih =>
+    intro bs hd hu
+    have : Old.fmtOf (d + 1) bs = fmtBody (fmtSeq (Old.fmtOf d)) bs := rfl
+    rw [this]
+    refine fmtBody_np _ bs hu fun seq _ hlt => ?_
+    have hu' : seq.length < I32LIM := by omega
+    apply fmtSeq_np _ _ (elements_item_np seq hu')
+    intro e he
+    have := elements_ok_le seq e hu' he
+    exact ih e (by omega) (by omega)
+
+/-! ### the depth cap of `Display` / `Debug` is transparent on shallow inputs -/
+
+theorem fmtBody_congr (k1 k2 : List (Res Bytes) → Res Unit) (bs : Bytes)
+    (hk : ∀ l, k2 l ≠ .panic .fuel → k1 l = k2 l) (h : fmtBody k2 bs ≠ .panic .fuel) :
+    fmtBody k1 bs = fmtBody k2 bs := by
+  unfold fmtBody at h ⊢
+  cases ht : tagOf bs with
+  | err e => rfl
+  | panic p => rfl
+  | ok t =>
+    simp only [ht, Res.ok_bind] at h ⊢
+    cases hv : valueOf bs with
+    | err e => rfl
+    | panic p => rfl
+    | ok v =>
+      simp only [hv, Res.ok_bind] at h ⊢
+      split
+      · rename_i hc
+        simp only [hc, if_true] at h
+        cases hs : containerOf bs with
+        | err e => rfl
+        | panic p => rfl
+        | ok seq =>
+          simp only [hs, Res.ok_bind] at h ⊢
+          have : k2 (elements seq) ≠ .panic .fuel := by
+            intro hp; rw [hp] at h; exact h rfl
+          rw [hk _ this]
+      · rfl
+
+theorem fmtSeq_first (f : Bytes → Res Unit) (hf : ∀ e, f e = .panic .fuel) :
+    ∀ l, fmtSeq f l ≠ .panic .fuel → fmtFirst l = fmtSeq f l
+  | [], _ => rfl
+  | r :: rest, h => by
+    simp only [fmtSeq, fmtFirst] at h ⊢
+    cases r with
+    | ok e => simp [hf e] at h
+    | err x => rfl
+    | panic p => rfl
+
+theorem fmtSeq_congr (f1 f2 : Bytes → Res Unit) (hf : ∀ e, f2 e ≠ .panic .fuel → f1 e = f2 e) :
+    ∀ l, fmtSeq f2 l ≠ .panic .fuel → fmtSeq f1 l = fmtSeq f2 l
+  | [], _ => rfl
+  | r :: rest, h => by
+    simp only [fmtSeq] at h ⊢
+    cases r with
+    | err x => rfl
+    | panic p => rfl
+    | ok e =>
+      simp only [Res.ok_bind] at h ⊢
+      have h2 : f2 e ≠ .panic .fuel := by intro hp; rw [hp] at h; exact h rfl
+      rw [hf e h2]
+      cases hfe : f2 e with
+      | err x => rfl
+      | panic p => rfl
+      | ok u =>
+        rw [hfe] at h
+        simp only [Res.ok_bind] at h ⊢
+        exact fmtSeq_congr f1 f2 hf rest h
+
+/-- **the cap changes nothing on inputs that nest at most `rem + 1` containers deep**: whenever the uncapped
+formatter gets along with `rem + 1` levels of recursion, the capped one (budget `rem`) gives the same result -/
+theorem fmtAt_eq_old : ∀ (rem : Nat) (bs : Bytes), Old.fmtOf (rem + 1) bs ≠ .panic .fuel →
+    fmtAt rem bs = Old.fmtOf (rem + 1) bs := by
+  intro rem
+  induction rem with
+  | zero =>
+    intro bs h
+    have e : Old.fmtOf 1 bs = fmtBody (fmtSeq (Old.fmtOf 0)) bs := rfl
+    rw [e] at h ⊢
+    exact fmtBody_congr _ _ bs (fmtSeq_first _ (fun _ => rfl)) h
+  | succ rem ih =>
+    intro bs h
+    have e : Old.fmtOf (rem + 1 + 1) bs = fmtBody (fmtSeq (Old.fmtOf (rem + 1))) bs := rfl
+    rw [e] at h ⊢
+    exact fmtBody_congr _ _ bs (fmtSeq_congr _ _ ih) h
 
 end Tlv
